@@ -22,7 +22,7 @@ Clauses(e) ==
 
 TraceInit == l = 1
 TraceNext == /\ l <= Len(Trace)
-             /\ Report(l, 0, Clauses(Trace[l]))
+             /\ Report(l, 0, IF IsPanic(Trace[l]) THEN PanicFail ELSE Clauses(Trace[l]))
              /\ l' = l + 1
 TraceSpec == TraceInit /\ [][TraceNext]_l
 Finished == l = Len(Trace) + 1 => PrintT(<<"TRACE-CONSUMED", Len(Trace)>>)
